@@ -417,6 +417,16 @@ func (fc *FontConfigurationGotext) wrapWordBreak(text []rune, style *TextStyle, 
 		Direction: di.DirectionLTR, // default, will be overriden
 	}, fc.fm)
 
+	if len(inputs) == 0 {
+		// the text starts with a paragraph separator (preserved line feed):
+		// the first line is empty and ends after it
+		resumeAt := 1
+		if resumeAt >= len(text) {
+			resumeAt = -1
+		}
+		return FirstLine{Layout: layoutGotext{}, Length: 0, ResumeAt: resumeAt}
+	}
+
 	// TODO: lazy iterator
 	outputs := make(shaping.Line, len(inputs))
 	for i, input := range inputs {
